@@ -698,13 +698,23 @@ class OperationUpdate:
     # endregion wait
 
 
+_UNIX_EPOCH = datetime.datetime(1970, 1, 1, tzinfo=datetime.UTC)
+
+
 class TimestampConverter:
     """Converter for datetime/Unix timestamp conversions."""
 
     @staticmethod
     def to_unix_millis(dt: datetime.datetime | None) -> int | None:
         """Convert datetime to Unix timestamp in milliseconds."""
-        return int(dt.timestamp() * 1000) if dt else None
+        if not dt:
+            return None
+        if dt.tzinfo is None:
+            # same reading of a naive datetime as datetime.timestamp(): local time
+            dt = dt.astimezone()
+        # exact integer arithmetic: scaling the float timestamp() and truncating loses a
+        # millisecond whenever the float lies just below a whole millisecond
+        return (dt - _UNIX_EPOCH) // datetime.timedelta(milliseconds=1)
 
     @staticmethod
     def from_unix_millis(ms: int | None) -> datetime.datetime | None:
@@ -912,22 +922,22 @@ class Operation:
         data_copy = copy.deepcopy(data)
 
         # Convert millisecond timestamps back to datetime objects
-        if ms := data_copy.get("StartTimestamp"):
+        if (ms := data_copy.get("StartTimestamp")) is not None:
             data_copy["StartTimestamp"] = TimestampConverter.from_unix_millis(ms)
 
-        if ms := data_copy.get("EndTimestamp"):
+        if (ms := data_copy.get("EndTimestamp")) is not None:
             data_copy["EndTimestamp"] = TimestampConverter.from_unix_millis(ms)
 
         if (step_details := data_copy.get("StepDetails")) and (
             ms := step_details.get("NextAttemptTimestamp")
-        ):
+        ) is not None:
             step_details["NextAttemptTimestamp"] = TimestampConverter.from_unix_millis(
                 ms
             )
 
         if (wait_details := data_copy.get("WaitDetails")) and (
             ms := wait_details.get("ScheduledEndTimestamp")
-        ):
+        ) is not None:
             wait_details["ScheduledEndTimestamp"] = TimestampConverter.from_unix_millis(
                 ms
             )
